@@ -210,6 +210,7 @@ type totalOutcome struct {
 	intr     int
 	wrapPfx  bool
 	byDevice int // requests raised by the memory during a Step
+	reRun    bool // Run was called again on a CPU parked on a HALT that carries a break point
 }
 
 // stepBudget: a Step normally takes nanoseconds; one that has not returned after this long never will
@@ -382,6 +383,37 @@ func runTotalInner(c *totalCase, wrap bool, at *int64) totalOutcome {
 				return o
 			}
 			o.ranRun = true
+			// the same with break points on the address of the HALT and on the start address, and Run called again
+			// on the parked CPU: every call must return (with whatever error)
+			cpu3, _, _ := build(c, wrap)
+			for i := range c.Intr {
+				cpu3.Interrupt = mkIntr(&c.Intr[i])
+			}
+			cpu3.BreakPoints = map[uint16]struct{}{cpu.PC: {}, c.PC: {}}
+			for call := 1; call <= 3; call++ {
+				done := make(chan any, 1)
+				go func() {
+					defer func() { done <- recover() }()
+					done <- cpu3.Run(context.Background())
+				}()
+				select {
+				case r := <-done:
+					if _, isErr := r.(error); r != nil && !isErr {
+						o.msg = fmt.Sprintf("Run (break points on the HALT and on the start address, call %d) panicked: %v", call, r)
+						return o
+					}
+					<-done
+				case <-time.After(20 * time.Second):
+					o.msg = fmt.Sprintf("Run (break points on the HALT at %04x and on the start address, call %d) did not return within 20 s on a program that halts after %d Steps", cpu.PC, call, haltedAt)
+					return o
+				}
+				// a further call is only known to return when the CPU is parked on a HALT that is in memory (not one a
+				// mode-0 device supplied) and no request is left that could lead it elsewhere
+				if cpu3.Interrupt != nil || cpu3.Memory.Get(cpu3.PC) != 0x76 {
+					break
+				}
+				o.reRun = true
+			}
 		}
 	}
 	return o
@@ -608,6 +640,9 @@ func account(col *stats.Collector, c *totalCase, o *totalOutcome, h uint64) {
 	if o.byDevice > 0 {
 		col.Label("request-raised-by-memory-during-step")
 	}
+	if o.reRun {
+		col.Label("Run-again-on-a-HALT-with-break-point")
+	}
 	if o.ranRun {
 		col.Label("halts->Run-checked")
 		if o.intr > 0 {
@@ -671,7 +706,7 @@ func TestC12(t *testing.T) {
 	col.Rule = "deterministic prefix sweep (every byte after CB, ED, DD, FD, DD CB d, FD CB d x memory kind {64 KiB, short DumbMemory, MapMemory} x IO kind {nil, short DumbIO, device} x PC in {0x0100, 0xFFFC..0xFFFF}), " +
 		"acknowledge sweep (IM in {0,1,2,3,-1,255} x first request {NMI, maskable with no / vector / RST / CALL data} x second request raised by the memory itself at its 1st..4th access of the acknowledging Step x PC {0x0100, 0xFFFF} x IFF1), hostile seed corpus, then rapid-generated byte strings decoded into (registers, any IM, PC/SP anywhere, memory kind and length biased to the addresses in use +-1, IO kind and length, program bytes at PC and at 0xFFF0.., " +
 		"interrupt schedule with any Type and data of 0..8 or 65537 bytes, a quarter of the requests raised by the memory during a Step instead of between Steps); up to 64 Steps under recover; oracle = no panic, an opcode logged as invalid changes only PC and R, reads only its own bytes and advances PC by exactly that many, " +
-		"a program seen to halt makes Run return with the same state; non-trivial = executes an invalid encoding, a prefix sequence cut at 0xFFFF, PC/SP beyond a short memory, or an interrupt; distinct by hash(bytes)"
+		"a program seen to halt makes Run return with the same state, and return from each of up to three calls when break points sit on the HALT and on the start address (further calls only while the CPU is parked on a HALT in memory with no request left); non-trivial = executes an invalid encoding, a prefix sequence cut at 0xFFFF, PC/SP beyond a short memory, or an interrupt; distinct by hash(bytes)"
 	// prefix sweep
 	for _, pfx := range [][]int{{0xCB}, {0xED}, {0xDD}, {0xFD}, {0xDD, 0xCB, 0x05}, {0xFD, 0xCB, 0xFB}} {
 		for op := 0; op < 256; op++ {
